@@ -205,6 +205,13 @@ def assign_alphabet(A, names):
         "b=@[sp+5]": {b: m.ExprMem(sp + m.ExprInt(5, 32), 32)},
         "b=@[sp+6]": {b: m.ExprMem(sp + m.ExprInt(6, 32), 32)},
         "r=@16[sp+7]": {r: m.ExprMem(sp + m.ExprInt(7, 32), 16).zeroExtend(32)},
+        # a pointer register copied, then advanced (or swapped), then memory read through both registers in ONE AssignBlock
+        "a=a+4": {a: a + m.ExprInt(4, 32)},
+        "r=@[a]+@[c]": {r: m.ExprMem(a, 32) + m.ExprMem(c, 32)},
+        "r=@[a],b=@[c]": {r: m.ExprMem(a, 32), b: m.ExprMem(c, 32)},
+        "r=@[c]": {r: m.ExprMem(c, 32)},
+        "r=@[a]+@[b]": {r: m.ExprMem(a, 32) + m.ExprMem(b, 32)},
+        "r=@[b]-@[a]": {r: m.ExprMem(b, 32) - m.ExprMem(a, 32)},
     }
     return [(n, table[n]) for n in names]
 
